@@ -104,6 +104,13 @@ def from_spec(spec, lazy=False):
             from vyxal.LazyList import LazyList
 
             return LazyList(iter([from_spec(x) for x in spec["lazy"]]))
+        if "fn" in spec:
+            from lib import env
+
+            r = env.run_text(spec["fn"])
+            if r.error or not r.stack:
+                raise ValueError(f"cannot build function from {spec['fn']!r}: {r.error}")
+            return r.stack[-1]
         raise ValueError(spec)
     if isinstance(spec, list):
         items = [from_spec(x) for x in spec]
@@ -126,6 +133,8 @@ def spec_plain(spec):
             if f.denominator == 1:
                 return int(f)
             return {"q": [f.numerator, f.denominator]}
+        if "fn" in spec:
+            return {"x": "function"}
         return spec
     if isinstance(spec, list):
         return [spec_plain(x) for x in spec]
